@@ -673,12 +673,21 @@ func (h *c04Hist) client(cl int, r *rand.Rand) {
 				return
 			}
 			waitQuiet(h.s, 2*time.Second, 6*time.Second)
-			full := h.s.DumpGoroutines() // SIGQUIT: this ends the core life
+			h.s.DumpGoroutines() // SIGQUIT: this ends the core life; the dump is at the end of its stderr
+			full := ""
+			if b, rerr := os.ReadFile(h.s.StderrPath()); rerr == nil {
+				if i := strings.LastIndex(string(b), "SIGQUIT: quit"); i >= 0 {
+					full = string(b[i:])
+				}
+			}
 			dump := ""
 			lost := false
-			for _, blk := range strings.Split(full, "\ngoroutine ") {
+			for _, blk := range strings.Split(full, "\n\n") {
+				if !strings.HasPrefix(blk, "goroutine ") {
+					continue
+				}
 				if strings.Contains(blk, "RpcServer") || strings.Contains(blk, "task.(*Manager)") || strings.Contains(blk, "environment.(*Manager)") || strings.Contains(blk, "schedulerState") {
-					dump += "goroutine " + blk + "\n"
+					dump += blk + "\n\n"
 				}
 				if strings.Contains(blk, "[chan receive") && strings.Contains(blk, "task.(*Manager).acquireTasks(") {
 					lost = true
